@@ -83,6 +83,9 @@ fn check_case(log: &mut Log, rc: &RootCtx, v: &Val, lname: &str, flags: u32, cas
             for p in &w.parts {
                 let bytes = p.count * p.esize;
                 log.count("borrowed_parts_checked", 1);
+                if bytes == 0 && p.esize > 0 && (p.ptr < addr || p.ptr > addr + len) {
+                    bad.push(format!("empty borrowed slice at {:#x} lies outside the backing region [{:#x},+{}]", p.ptr, addr, len));
+                }
                 if bytes > 0 && (p.ptr < addr || p.ptr + bytes > addr + len) {
                     bad.push(format!("borrowed part [{:#x},+{}) lies outside the backing region [{:#x},+{})", p.ptr, bytes, addr, len));
                 }
